@@ -132,6 +132,10 @@ def boundary_molecules(rng, n_random, tier='quick'):
         out.append(('ct-shared', m))
         for _ in range(1 if tier == 'quick' else 4):
             out.append(('ct-shared', corpus.renumber(m, rng)))
+    # version 0 order block = groups of five bonds: bond counts 0, 5, 10, 15 (and 4, 6), with and without cis/trans labels
+    for sm in ('C', '[Na+]', 'CCCCCC', 'C/C=C/CCC', 'C/C=C\\C=C/C', 'CCCCCCCCCCC', 'C/C=C/CCCCCCCC', 'CC(C)(C)c1ccccc1', 'C/C=C/c1ccccc1CC', 'CCCCCCCCCCCCCCCC',
+               'CCCCC', 'C/C=C/CCCC', 'O.O'):
+        out.append(('v0-groups', smiles(sm)))
     # EXHAUSTIVE small space: every labelled simple graph on 2..3 atoms (quick: orders 1, 2, 8) resp. 2..4 atoms (thorough:
     # all five orders up to 3 atoms, orders 1, 2 on 4 atoms), bonds inserted in a shuffled order, hetero atom at position 1
     def small_space(nmax, orders_by_n):
@@ -242,6 +246,12 @@ def corr(ck, unpack_mod, mols):
                     exp0 = f'Ok {unpacked_term(mol0, ct0, size0, d0)}'
                 except (IndexError, KeyError) as e:
                     exp0 = f'Err {type(e).__name__}'
+                except Exception as e:
+                    # the decoder leaves its buffers (transpiler: RuntimeError) on a pack the independent writer produced from
+                    # a molecule within the limits: the API level oracle reports the concrete input
+                    ck.count('mol:v0-decoder-raises')
+                    check_molecule(ck, kind, m, tag='-directed')
+                    continue
                 cases.append(f'pyres_eqb unpacked_eqb (unpack {lst(list(d0), zraw)}) ({exp0})')
                 meta.append(('unpack_v0', kind, mstr(m)))
     ck.sample({'model_call': cases[0][:300], 'of': meta[0]})
@@ -752,6 +762,35 @@ def corr_reactions(ck, rng):
                      'Ok (map (fun u => Z.of_nat (List.length (up_atoms u))) x, map (fun u => Z.of_nat (List.length (up_atoms u))) y, '
                      'map (fun u => Z.of_nat (List.length (up_atoms u))) z) | Err e => Err e end) (Ok (' + ', '.join(lst(x, zraw) for x in got) + '))')
         meta.append(('rxn_unpack', r, a, p))
+    # reaction packs assembled from VERSION 0 molecule packs (independent writer), bond counts 0 / 5 / 10 next to others
+    v0pool = [smiles(x) for x in ('C', 'CCCCCC', 'C/C=C/CCC', 'CCCCCCCCCCC', 'CCO', 'O', 'CC(C)(C)c1ccccc1')]
+    for (r, a, p) in ((1, 1, 1), (1, 0, 1), (0, 2, 0), (2, 1, 0), (1, 2, 2), (0, 0, 3), (3, 0, 0)):
+        for rep in range(2):
+            ms = [rng.choice(v0pool) for _ in range(r + a + p)]
+            data = bytes([1, r, a, p]) + b''.join(layout_oracle(x, version=0) for x in ms)
+            ck.case(('rxn-v0', r, a, p, tuple(mstr(x) for x in ms)))
+            ck.count('rxn:v0')
+            try:
+                ln = ReactionContainer.pack_len(data, compressed=False)
+                exp = 'Ok (' + ', '.join(lst(x, zraw) for x in ln) + ')'
+            except IndexError:
+                exp = 'Err IndexError'
+            except Exception:
+                exp = None
+            if exp:
+                cases.append(f'pyres_eqb lens_eqb (rxn_pack_len {lst(list(data), zraw)}) ({exp})')
+                meta.append(('rxn_pack_len_v0', r, a, p))
+            try:
+                u = ReactionContainer.unpack(data, compressed=False)
+                got = ([len(x) for x in u.reactants], [len(x) for x in u.reagents], [len(x) for x in u.products])
+                exp = 'Ok (' + ', '.join(lst(x, zraw) for x in got) + ')'
+            except Exception:
+                exp = None      # reported with the concrete input by the search step
+            if exp:
+                cases.append('pyres_eqb lens_eqb (match rxn_unpack ' + lst(list(data), zraw) + ' with Ok (x, y, z) => '
+                             'Ok (map (fun u => Z.of_nat (List.length (up_atoms u))) x, map (fun u => Z.of_nat (List.length (up_atoms u))) y, '
+                             'map (fun u => Z.of_nat (List.length (up_atoms u))) z) | Err e => Err e end) (' + exp + ')')
+                meta.append(('rxn_unpack_v0', r, a, p))
     # the 255 limit and a molecule outside the limits, at API level
     c1 = smiles('C')
     pk1 = c1.pack(compressed=False)
@@ -998,7 +1037,12 @@ def check_molecule(ck, kind, m, tag=''):
     if d0 is not None:
         ck.case(('v0' + tag, kind, mstr(m), tuple(m._atoms)))
         try:
-            u0 = MoleculeContainer.unpack(d0, compressed=False)
+            u0, len0 = MoleculeContainer.unpack(d0, compressed=False, _return_pack_length=True)
+            if len0 != len(d0):
+                ck.counterexample(f'v0-length:{kind}:{mstr(m)}:{list(m._atoms)[:3]}', f'decoding a version 0 pack of {len(d0)} bytes ({m.bonds_count} bonds) reports a pack length of {len0}',
+                                  {'smiles': mstr(m), 'bonds': m.bonds_count, 'pack': list(d0)}, len0, len(d0), 'independent version 0 writer + API decode',
+                                  replay_py=REPLAY_PRE + f'print(MoleculeContainer.unpack(bytes({list(d0)!r}), compressed=False, _return_pack_length=True))')
+                ok = False
             if only_labels_moved(m, u0):
                 report_label_move(ck, m, u0, 'decoding the version 0 pack')
                 ok = False
@@ -1074,6 +1118,31 @@ def search(ck, mols, rng, n_ref):
             ck.counterexample(f'xy-value:{x!r}', 'coordinate not preserved to half precision', {'x': x}, [u._atoms[1].x, u._atoms[2].y], 'half(x)',
                               'independent half-float truncation',
                               replay_py=REPLAY_PRE + f'm=smiles("CC"); m._atoms[1]._xy.x={x!r}; print(MoleculeContainer.unpack(m.pack())._atoms[1].x)')
+    # reaction packs assembled from VERSION 0 molecule packs by the independent writer: every molecule must come back in its
+    # role (a wrong consumed length of one molecule shifts all the following ones), pack_len must give the atom counts
+    v0pool = [smiles(x) for x in ('C', 'CCCCCC', 'C/C=C/CCC', 'CCCCCCCCCCC', 'C/C=C/CCCCCCCC', 'CCO', 'O', 'CC(C)(C)c1ccccc1', 'C[C@H](N)O')]
+    for (r, a, p) in [(1, 1, 1), (1, 0, 1), (0, 2, 0), (2, 1, 0), (1, 2, 2), (0, 0, 3), (3, 0, 0), (2, 2, 2)]:
+        for rep in range(3):
+            ms = [rng.choice(v0pool) for _ in range(r + a + p)]
+            data = bytes([1, r, a, p]) + b''.join(layout_oracle(x, version=0) for x in ms)
+            key = f'{r}{a}{p}:' + '.'.join(str(x.bonds_count) for x in ms)
+            ck.case(('rxn-v0-rt', r, a, p, tuple(mstr(x) for x in ms)))
+            inp = {'roles': [r, a, p], 'molecules': [mstr(x) for x in ms], 'bonds': [x.bonds_count for x in ms], 'pack': list(data)}
+            rp = REPLAY_PRE + f'd=bytes({list(data)!r}); print(ReactionContainer.unpack(d, compressed=False), ReactionContainer.pack_len(d, compressed=False))'
+            try:
+                u = ReactionContainer.unpack(data, compressed=False)
+                roles = [[observe(x) for x in side] for side in (u.reactants, u.reagents, u.products)]
+                want = [[observe(x) for x in ms[:r]], [observe(x) for x in ms[r:r + a]], [observe(x) for x in ms[r + a:]]]
+                if roles != want:
+                    ck.counterexample(f'rxn-v0-roundtrip:{key}', 'a reaction pack of version 0 molecule packs (independent writer) decodes to other molecules / roles', inp,
+                                      str(u), [mstr(x) for x in ms], 'independent version 0 writer + API decode', replay_py=rp)
+                ln = ReactionContainer.pack_len(data, compressed=False)
+                if [list(x) for x in ln] != [[len(x) for x in ms[:r]], [len(x) for x in ms[r:r + a]], [len(x) for x in ms[r + a:]]]:
+                    ck.counterexample(f'rxn-v0-pack_len:{key}', 'pack_len of a reaction pack of version 0 molecule packs is wrong', inp, ln,
+                                      [[len(x) for x in ms[:r]], [len(x) for x in ms[r:r + a]], [len(x) for x in ms[r + a:]]], 'atom counts', replay_py=rp)
+            except Exception as e:
+                ck.counterexample(f'rxn-v0-raises:{key}', f'decoding a reaction pack of version 0 molecule packs raises {type(e).__name__}', inp, repr(e), [mstr(x) for x in ms],
+                                  'independent version 0 writer + API decode', replay_py=rp)
     # reactions with every combination of empty sides
     pool = [smiles(s) for s in ('C', 'CCO', 'C=O', '[Na+].[Cl-]', 'c1ccccc1', 'C[C@H](N)O')]
     for (r, a, p) in itertools.product(range(3), repeat=3):
